@@ -19,6 +19,7 @@ from ..model import AnalysisError
 from ..paths import SIGNALS
 from ..types import Callee
 from .. import rules
+from ..norm import equal_algebra
 
 PROP = 'C09'
 LOCK = 'usim._primitives.locks.Lock'
@@ -146,6 +147,9 @@ def run(check, an: Analysis):
             if event.kind == 'store' and event['path'] == 'self._owner' and event.depth == 0:
                 n_take += 1
                 free = rules.fact_value(event, ('isnone', 'self._owner'))
+                if free is None:
+                    # `owner = self._owner; if owner is None:` -- a read of this atomic block
+                    free = rules.path_atoms(path, 0, index).get(('isnone', 'self._owner'))
                 value_ok = event['value'] is not None and rules.value_text(
                     path, index, event['value']) == rules.CURRENT_ACTIVITY
                 check.instance(
@@ -263,16 +267,25 @@ def run(check, an: Analysis):
         for path in an.paths(aexit, which):
             if not path.normal:
                 continue
-            downs = [e for e in path.events if e.kind == 'store'
+            downs = [(i, e) for i, e in enumerate(path.events) if e.kind == 'store'
                      and e['path'] == 'self._depth' and e.depth == 0]
-            zero = [e for e in path.events if e.kind == 'test' and
-                    e.get('key') == ('eq', 'self._depth', '0')]
             released = any(is_call_to(e, '__release__') and e.depth == 0 and
                            e.kind != 'leave' for e in path.events)
-            is_zero = bool(zero) and key_truth(zero[0]) is True
-            ok = len(downs) == 1 and isinstance(downs[0]['aug'], ast.Sub) and \
-                _const_value(downs[0]['value']) == 1 and len(zero) == 1 and \
-                (is_zero == released)
+            # the new depth in terms of the old one, and the test `new depth == 0`
+            is_zero, n_zero, minus_one = None, 0, False
+            if len(downs) == 1:
+                at, down = downs[0]
+                new_depth = _attr_update(path, at, down, 'self._depth')
+                minus_one = new_depth is not None and equal_algebra(new_depth, 'OLD_ - 1')
+                for pos in range(at + 1, len(path.events)):
+                    test = path.events[pos]
+                    if test.kind != 'test' or test.depth != 0:
+                        continue
+                    truth = _zero_test(path, pos, test, 'self._depth', at, new_depth)
+                    if truth is not None:
+                        n_zero += 1
+                        is_zero = truth
+            ok = len(downs) == 1 and minus_one and n_zero == 1 and (is_zero == released)
             check.instance('R', 'aexit:-1,release-iff-zero{%s}/%s' % (
                 which, 'zero' if is_zero else 'nested'), ok,
                 where_fn(aexit.fn),
@@ -344,6 +357,67 @@ def _stored_source(path, index, value, depth=4):
     return 'other'
 
 
+def _relative(path, pos, expr, attr, store_pos, new_text):
+    """``expr`` (evaluated at ``pos``) over OLD_: reads of ``attr`` before the store at
+    ``store_pos`` are OLD_, later ones the stored new value"""
+    import copy
+
+    def rename(tree, symbol):
+        class Sub(ast.NodeTransformer):
+            def visit_Attribute(self, node):
+                if ast.unparse(node) == attr and isinstance(node.ctx, ast.Load):
+                    return ast.parse(symbol, mode='eval').body
+                return self.generic_visit(node)
+        return Sub().visit(copy.deepcopy(tree))
+
+    def expand(tree, at):
+        symbol = 'OLD_' if at <= store_pos else '(%s)' % new_text
+        tree = rename(tree, symbol)
+
+        class Names(ast.NodeTransformer):
+            def visit_Name(self, node):
+                if not isinstance(node.ctx, ast.Load) or node.id == 'OLD_':
+                    return node
+                found = rules.reaching_store(path, at, node.id)
+                if found is None or found[1].data.get('value') is None or \
+                        found[1].data.get('aug') is not None:
+                    return node
+                return expand(found[1]['value'], found[0])
+        return Names().visit(tree)
+    return expand(expr, pos)
+
+
+def _attr_update(path, at, store, attr):
+    """text of the value stored into ``attr`` over OLD_ (its value before the store)"""
+    value = store['value']
+    if value is None:
+        return None
+    if store['aug'] is not None:
+        op = {ast.Add: '+', ast.Sub: '-'}.get(type(store['aug']))
+        if op is None:
+            return None
+        return 'OLD_ %s (%s)' % (op, ast.unparse(_relative(path, at, value, attr, at, 'OLD_')))
+    return ast.unparse(_relative(path, at, value, attr, at, 'OLD_'))
+
+
+def _zero_test(path, pos, test, attr, store_pos, new_text):
+    """truth of `new value of attr == 0` decided by this test event, else None"""
+    node = test.node
+    if not (isinstance(node, ast.Compare) and len(node.ops) == 1 and
+            isinstance(node.ops[0], (ast.Eq, ast.NotEq))) or new_text is None:
+        return None
+    tree = _relative(path, pos, node, attr, store_pos, new_text)
+    diff = '(%s) - (%s)' % (ast.unparse(tree.left), ast.unparse(tree.comparators[0]))
+    try:
+        same = equal_algebra(diff, new_text) or equal_algebra(diff, '-(%s)' % new_text)
+    except Exception:
+        same = False
+    if not same:
+        return None
+    value = bool(test['value'])
+    return value if isinstance(node.ops[0], ast.Eq) else not value
+
+
 def _const_value(node):
     return node.value if isinstance(node, ast.Constant) else None
 
@@ -362,10 +436,8 @@ def _first_of_awake_next(fn, name: str) -> bool:
 
 
 def _enter_condition(path) -> str:
-    for event in path.events:
-        if event.kind == 'test' and event.get('key') == ('isnone', 'self._owner') \
-                and key_truth(event) is True:
-            return 'free'
+    if rules.path_atoms(path).get(('isnone', 'self._owner')) is True:
+        return 'free'
     for index, event in enumerate(path.events):
         if event.kind == 'test':
             found = _owner_compare(event, path, index)
